@@ -271,11 +271,30 @@ def gen_layer_cfg(rng, D, equivariant_domain=True, allow_stride=False, group="B"
     cell is visited every 24 cases whatever the random stream does (a generator change must not silently empty a cell)."""
     from .ref import conv as rconv
 
+    if stratum is not None and D == 3 and stratum % 16 == 8:
+        # high-order stratum: tensor orders beyond the k<=2 of the everyday signatures, through the single-pixel bank (the only
+        # size at which order-5 filters are cheap): (2,0),(3,1) -> (3,1),(2,0) uses the filter types (4,0) and (5,1), i.e.
+        # 3^5 = 243 filter components per pixel, with several channels per type (code paths gated on that product)
+        cin, cout = rng.permutation([2, 3, 4])[:2], rng.permutation([1, 2, 3])[:2]
+        if equal_channels:
+            cin, cout = [int(cin[0])] * 2, [int(cout[0])] * 2
+        ins, outs = [[2, 0], [3, 1]], [[3, 1], [2, 0]]
+        if rng.integers(0, 2):
+            ins, outs = ins[::-1], outs
+        tor_kind = ["all", "none", "mixed"][(stratum // 16) % 3]
+        torus = [True] * 3 if tor_kind == "all" else ([False] * 3 if tor_kind == "none" else [bool(v) for v in rng.permutation([True, False, bool(rng.integers(0, 2))])])
+        pk = [None, "TORUS", "SAME", "VALID"][int(rng.integers(4))]
+        return {"D": 3, "M": 1, "in_sig": [[t, int(c)] for t, c in zip(ins, cin)], "out_sig": [[t, int(c)] for t, c in zip(outs, cout)], "ks": [4, 5], "drop": None,
+                "bias": ["auto", "mean", "scalar", True, False][int(rng.integers(5))], "padding": pk, "pad_kind": str(pk), "lhs": None, "rhs": 1, "stride": 1, "torus": torus,
+                "torus_kind": tor_kind, "sp": [int(v) for v in rng.integers(2, 4, size=3)], "group": group, "high_order": True}
     for _ in range(100):
         M = int([3, 3, 3, 2, 5, 1][int(rng.integers(6))]) if D == 2 else int([3, 3, 2, 1][int(rng.integers(4))])
         # long-reach stratum (every sixth case when a stratum is given): odd filter, no image dilation, wrap padding, dilation 3-4
         # on a 2-4 pixel image, so that the filter reach exceeds the extent on a toroidal axis
         forced_long = stratum is not None and stratum % 6 == 5
+        mixed = stratum is not None and stratum % 16 == 3 and D == 2  # mixed-size bank stratum (see the end of the loop)
+        if mixed:
+            M, forced_long = 3, False
         if forced_long:
             M = 3 if (D == 3 or rng.integers(0, 2)) else 5
         kmax_t = 2 if D == 2 else 1
@@ -300,7 +319,7 @@ def gen_layer_cfg(rng, D, equivariant_domain=True, allow_stride=False, group="B"
         bias = ["auto", "mean", "scalar", True, False][int(rng.integers(5))]
         even = M % 2 == 0
         lhs = None
-        if rng.integers(0, 4) == 0 and not forced_long:
+        if rng.integers(0, 4) == 0 and not forced_long and not mixed:
             lhs = [2] * D
         pads = ["VALID", "explicit"] if even else ([None, "TORUS", "SAME", "VALID", "explicit", "explicit"] if lhs is not None else [None, "TORUS", "SAME", "VALID", "explicit", None, "TORUS", "SAME"])
         pk = pads[int(rng.integers(len(pads)))]
@@ -309,17 +328,19 @@ def gen_layer_cfg(rng, D, equivariant_domain=True, allow_stride=False, group="B"
             if forced_long:
                 want_pk = [None, "TORUS"][(stratum // 6) % 2]
             pk = want_pk if want_pk in pads else pk
+        if mixed:
+            pk = ["SAME", None, "TORUS"][(stratum // 16) % 3]
         padding = pk
         if pk == "explicit":
             q = int(rng.integers(0, 3)) if lhs is None else int(rng.integers(1, 3))
             padding = [[q, q]] * D
         rhs = int(rng.integers(1, 3))
-        long_reach = rng.integers(0, 5) == 0 or forced_long  # filter reach ((M-1)//2)*dilation beyond the image extent (small images under a DilResNet)
+        long_reach = (rng.integers(0, 5) == 0 or forced_long) and not mixed  # filter reach ((M-1)//2)*dilation beyond the image extent (small images under a DilResNet)
         if long_reach:
             rhs = int(rng.integers(3, 5))
         rhs = rhs if rng.integers(0, 2) else [rhs] * D
         stride = 1
-        if allow_stride and rng.integers(0, 3) == 0:
+        if allow_stride and rng.integers(0, 3) == 0 and not mixed:
             stride = int(rng.integers(1, 3)) if rng.integers(0, 2) else [int(v) for v in rng.integers(1, 3, size=D)]
         tor_kind = ["all", "none", "mixed"][int(rng.integers(3))]
         torus = [True] * D if tor_kind == "all" else ([False] * D if tor_kind == "none" else [bool(v) for v in rng.integers(0, 2, size=D)])
@@ -344,7 +365,14 @@ def gen_layer_cfg(rng, D, equivariant_domain=True, allow_stride=False, group="B"
             continue
         if min(osp) < 1 or int(np.prod(osp)) > 600:
             continue
-        return {"D": D, "M": M, "in_sig": in_sig, "out_sig": out_sig, "ks": ks, "drop": drop, "bias": bias, "padding": padding, "pad_kind": str(pk), "lhs": lhs, "rhs": rhs, "stride": stride, "torus": torus, "torus_kind": tor_kind, "sp": sp, "group": group}
+        out = {"D": D, "M": M, "in_sig": in_sig, "out_sig": out_sig, "ks": ks, "drop": drop, "bias": bias, "padding": padding, "pad_kind": str(pk), "lhs": lhs, "rhs": rhs, "stride": stride, "torus": torus, "torus_kind": tor_kind, "sp": sp, "group": group}
+        if mixed:
+            # a hand-merged bank whose filter types have different side lengths (3x3 for some orders, 5x5 for the others): the case
+            # the layer's per-pair convolution exists for; with a string padding every pair still returns the input extents
+            out["mixed_M"] = {str(k_): int(rng.choice([3, 5])) for k_ in ks}
+            if len(set(out["mixed_M"].values())) == 1:
+                out["mixed_M"][str(ks[int(rng.integers(len(ks)))])] = 8 - out["mixed_M"][str(ks[0])]
+        return out
     raise RuntimeError("no layer cfg")
 
 
@@ -356,6 +384,13 @@ def build_bank(cfg, source="ref"):
     import ginjax.geometric as geom
 
     D, M = cfg["D"], cfg["M"]
+    if cfg.get("mixed_M"):
+        data = {}
+        for k_, M_ in cfg["mixed_M"].items():
+            part = (ref_bank if source == "ref" else lib_bank)(D, int(M_), (int(k_),), (0, 1), cfg.get("group", "B"))
+            data.update({t: v for t, v in part.data.items()})
+        drop = tuple(cfg["drop"]) if cfg.get("drop") else None
+        return geom.MultiImage({t: v for t, v in sorted(data.items()) if t != drop}, D, True)
     full = (ref_bank if source == "ref" else lib_bank)(D, M, tuple(cfg["ks"]), (0, 1), cfg.get("group", "B"))
     drop = tuple(cfg["drop"]) if cfg.get("drop") else None
     data = {t: v for t, v in full.data.items() if t != drop}
